@@ -40,12 +40,12 @@ var Properties = map[string][]string{
 	"C06": {"C06.a", "C05.c", "C06.c", "C06.e", "C05.e"},
 	"C08": {"C08.a", "C08.b", "C08.c"},
 	"C11": {"C11.a", "C11.b", "C11.c", "C11.g", "C11.h", "C01.d", "C12.d"},
-	"C12": {"C12.a", "C12.b", "C12.d", "C16.d", "C12.e", "C13.b"},
+	"C12": {"C12.a", "C12.b", "C12.d", "C16.d", "C12.e", "C13.b", "C12.f"},
 	"C13": {"C13.a", "C13.b", "C13.c", "C10.f"},
 	"C17": {"C12.a", "C17.a", "C17.b", "C17.c", "C06.e", "C17.e", "C11.c", "C11.g"},
-	"C16": {"C16.a", "C16.b", "C16.c", "C16.d", "C12.d"},
+	"C16": {"C16.a", "C16.b", "C16.c", "C16.d", "C12.d", "C16.e"},
 	"C15": {"C15.b", "C15.d", "C12.b"},
-	"C14": {"C14.abc", "C14.d", "C14.e"},
+	"C14": {"C14.abc", "C14.d", "C14.e", "C14.p"},
 }
 
 func register(id string, f RuleFunc) { Registry[id] = f }
